@@ -76,6 +76,10 @@ def gen_job(rng, fw=None, layout=None):
     job = _gen_job(rng, fw, layout)
     if rng.random() < 0.25:
         job["renderFirst"] = "nested" if job["layout"] == "flat" else "flat"
+        if rng.random() < 0.5:
+            # ... and with another framework's generator (a registry may be rendered for several frameworks in one process)
+            job["renderFirst"] = rng.choice(["flat", "nested"])
+            job["renderFirstFw"] = rng.choice([f for f in FRAMEWORKS + ["base"] if f != job["fw"]])
     elif job["convertUnicode"] and rng.random() < 0.2:
         job["structureReuse"] = True
     return job
